@@ -59,11 +59,21 @@ def main():
         rc, out = demo(demo_copy, pathlib.Path("/repo"))
         result["demo_without_patch"] = {"exit": rc, "tail": out[-160:]}
         result["checks"] = {}
-        for pid in checks:
+
+        def one(pid):
             env = dict(os.environ, VERIF_REPO=str(repo), VERIF_EVIDENCE_DIR=str(scratch / "evidence"), VERIF_REPLAY_DIR=str(scratch / "replays"))
-            r = subprocess.run([str(VERIF / "check"), pid, "--tier", tier], capture_output=True, text=True, env=env, cwd=VERIF)
+            try:
+                r = subprocess.run([str(VERIF / "check"), pid, "--tier", tier], capture_output=True, text=True, env=env, cwd=VERIF, timeout=3600)
+            except subprocess.TimeoutExpired:
+                return pid, {"exit": 2, "violation": False, "first": "check did not finish within 3600 s"}
             first = next((l.strip() for l in r.stdout.splitlines() if "root cause" in l), "")
-            result["checks"][pid] = {"exit": r.returncode, "violation": "VIOLATION" in r.stdout, "first": first[:220]}
+            return pid, {"exit": r.returncode, "violation": "VIOLATION" in r.stdout, "first": first[:220]}
+
+        import concurrent.futures
+
+        with concurrent.futures.ThreadPoolExecutor(max_workers=int(os.environ.get("SEEDED_PARALLEL", "4"))) as ex:
+            for pid, res in ex.map(one, checks):
+                result["checks"][pid] = res
         result["caught_by"] = [p for p, v in result["checks"].items() if v["violation"]]
         result["harness_errors"] = [p for p, v in result["checks"].items() if v["exit"] == 2]
     finally:
